@@ -2,6 +2,7 @@ package an
 
 import (
 	"go/constant"
+	"go/types"
 	"sort"
 	"strings"
 	"syscall"
@@ -224,6 +225,26 @@ func OpenFileFlags(c ssa.CallInstruction) []int64 {
 			return out
 		case *ssa.Convert:
 			return eval(x.X, depth+1)
+		case *ssa.Lookup:
+			// a value from a constant table: any entry (or the zero value for a key outside the table)
+			if ct := tableOf(x.X); ct != nil && ct.IsMap {
+				out := map[int64]bool{}
+				for _, v := range ct.Vals {
+					n, ok := v.ConstInt()
+					if !ok {
+						return nil
+					}
+					out[n] = true
+				}
+				if _, isBool := x.Index.Type().Underlying().(*types.Basic); !(isBool && len(ct.Keys) == 2 && x.Index.Type().Underlying().(*types.Basic).Kind() == types.Bool) {
+					out[0] = true
+				}
+				return out
+			}
+		case *ssa.Extract:
+			if lk, ok := x.Tuple.(*ssa.Lookup); ok && x.Index == 0 {
+				return eval(lk, depth+1)
+			}
 		}
 		return nil
 	}
